@@ -154,6 +154,29 @@ def e4(ctx, fx, U):
                 if const_value(r) == "sha-256" and may(l, lambda x: x.kind == "call" and x.d["term"].get("name") in ("index", "get") and len(x.kids) > 1 and const_value(x.kids[1]) == "_sd_alg"
                                                         and is_field(peel(x.kids[0]), "sd_jwt_payload")):
                     good.append((bb, tt) if nm == "eq" else (bb, ft))
+    # closure form: get(payload, "_sd_alg").map(|alg| alg != "sha-256").unwrap_or(false) / map_or(false, ..) / is_some_and(..)
+    for (bb, tt, ft, c) in bool_switches(fn):
+        inner = None
+        if c.kind == "call" and c.d["term"].get("name") == "unwrap_or" and len(c.kids) == 2 and const_value(c.kids[1]) is False:
+            m_ = peel(c.kids[0])
+            if m_.kind == "call" and m_.d["term"].get("name") == "map" and len(m_.kids) == 2:
+                inner = (m_.kids[0], m_.kids[1])
+        elif c.kind == "call" and c.d["term"].get("name") == "is_some_and" and len(c.kids) == 2:
+            inner = (c.kids[0], c.kids[1])
+        elif c.kind == "call" and c.d["term"].get("name") == "map_or" and len(c.kids) == 3 and const_value(c.kids[1]) is False:
+            inner = (c.kids[0], c.kids[2])
+        if inner is None:
+            continue
+        src, clo = peel(inner[0]), inner[1]
+        if not (src.kind == "call" and src.d["term"].get("name") == "get" and len(src.kids) > 1 and const_value(src.kids[1]) == "_sd_alg" and is_field(peel(src.kids[0]), "sd_jwt_payload")):
+            continue
+        if not (clo.kind == "agg" and clo.d["agg"].get("kind") == "closure" and clo.d["agg"].get("def") in fx.fns):
+            continue
+        cf = fx.fns[clo.d["agg"]["def"]]
+        rv = peel(vals(cf).return_value())
+        if rv.kind == "call" and rv.d["term"].get("name") == "ne" and len(rv.kids) == 2 and any(const_value(k) == "sha-256" for k in rv.kids) \
+                and any(peel(k).kind == "param" and peel(k).d["idx"] == 2 for k in rv.kids):
+            good.append((bb, ft))  # absent, or present and equal
     for b2, t2 in fn.calls():
         n2 = fv.call_node(b2)
         if t2.get("name") == "get" and len(n2.kids) > 1 and const_value(n2.kids[1]) == "_sd_alg" and is_field(peel(n2.kids[0]), "sd_jwt_payload"):
